@@ -5,6 +5,8 @@ import math
 import numpy as np
 from hypothesis import strategies as st
 
+from ..core import sampled_from  # noqa: E402
+
 from .. import build, meshgen, writers
 from .. import sphere as S
 from ..core import Failure
@@ -45,13 +47,13 @@ TIE = 1e-9
 
 @st.composite
 def _qpoint(draw):
-    how = draw(st.sampled_from(["any", "any", "am", "pole", "nearpole", "element"]))
+    how = draw(sampled_from(["any", "any", "am", "pole", "nearpole", "element"]))
     if how == "am":
-        return [draw(st.sampled_from([180.0, -180.0, 179.9, -179.9, 175.0, -176.0])), draw(st.floats(-85, 85))], how
+        return [draw(sampled_from([180.0, -180.0, 179.9, -179.9, 175.0, -176.0])), draw(st.floats(-85, 85))], how
     if how == "pole":
-        return [draw(st.floats(-180, 180)), draw(st.sampled_from([90.0, -90.0]))], how
+        return [draw(st.floats(-180, 180)), draw(sampled_from([90.0, -90.0]))], how
     if how == "nearpole":
-        return [draw(st.floats(-180, 180)), draw(st.sampled_from([1, -1])) * draw(st.floats(80, 89.9))], how
+        return [draw(st.floats(-180, 180)), draw(sampled_from([1, -1])) * draw(st.floats(80, 89.9))], how
     if how == "element":
         return ["element", draw(st.integers(0, 10**6))], how
     return [draw(st.floats(-180, 180)), math.degrees(math.asin(draw(st.floats(-1, 1))))], how
@@ -59,27 +61,27 @@ def _qpoint(draw):
 
 @st.composite
 def _step(draw):
-    tree, system, metric = draw(st.sampled_from(CONFIGS))
-    kind = draw(st.sampled_from(KINDS))
-    q = draw(st.sampled_from(["knn", "knn", "radius"]))
+    tree, system, metric = draw(sampled_from(CONFIGS))
+    kind = draw(sampled_from(KINDS))
+    q = draw(sampled_from(["knn", "knn", "radius"]))
     if tree == "kd" and system == "spherical":
         q = "knn"
-    pts = [draw(_qpoint())[0] for _ in range(draw(st.sampled_from([1, 1, 2, 3, 4])))]
+    pts = [draw(_qpoint())[0] for _ in range(draw(sampled_from([1, 1, 2, 3, 4])))]
     return {
         "tree": tree,
         "system": system,
         "metric": metric,
         "kind": kind,
-        "reconstruct": draw(st.sampled_from([False, False, False, True])),
+        "reconstruct": draw(sampled_from([False, False, False, True])),
         "query": q,
         "points": pts,
         "in_radians": draw(st.booleans()),
         "k_frac": draw(st.floats(0, 1)),
         "k_small": draw(st.integers(1, 4)),
         "use_small_k": draw(st.booleans()),
-        "k_mode": draw(st.sampled_from(["draw", "draw", "max", "max-1", "one"])),
-        "radius_deg": draw(st.sampled_from([0.0, 1.0, 30.0, 180.0]) | st.floats(0.0, 120.0)),
-        "return_distance": draw(st.sampled_from([True, True, False])),
+        "k_mode": draw(sampled_from(["draw", "draw", "max", "max-1", "one"])),
+        "radius_deg": draw(sampled_from([0.0, 1.0, 30.0, 180.0]) | st.floats(0.0, 120.0)),
+        "return_distance": draw(sampled_from([True, True, False])),
     }
 
 
@@ -89,7 +91,7 @@ def _case(draw, tier):
     mesh = draw(meshgen.any_mesh(max_pts=30 if big else 14, partial=True, tiny=True))
     mesh.pop("centers", None)
     steps = draw(st.lists(_step(), min_size=1, max_size=5))
-    return {"mesh": mesh, "steps": steps, "radius": draw(st.sampled_from([None, None, None, 2.5, 6371229.0]))}
+    return {"mesh": mesh, "steps": steps, "radius": draw(sampled_from([None, None, None, 2.5, 6371229.0]))}
 
 
 def strategy(tier, excl):
